@@ -22,4 +22,11 @@ PROPS = {
         "modelled": EXTERNAL,
         "assumptions": ["NoopNormalizer (identity) is the normalizer"],
     },
+    "C13": {
+        "suites": [("cmp", 900, 12000)],
+        "proved_scope": "TO BE FILLED",
+        "not_proved": "TO BE FILLED",
+        "modelled": EXTERNAL,
+        "assumptions": [],
+    },
 }
